@@ -1,6 +1,7 @@
 #!/bin/sh
-# tools/sens_all.sh -- run every mutants/<cNN>_*.patch against the check of its property;
-# writes mutants/RESULTS.txt (DETECTED / MISSED / PATCH-FAILED per patch)
+# tools/sens_all.sh -- run every hand-written mutants/<cNN>_*.patch against the check of its
+# property; writes mutants/RESULTS.txt (DETECTED / MISSED / PATCH-FAILED per patch).
+# (reverse patches of the fix: commits are handled by tools/revert_all.sh)
 cd "$(dirname "$0")/.."
 : > mutants/RESULTS.txt
 for p in mutants/*.patch; do
